@@ -168,11 +168,13 @@ class MetaMolecule(nx.Graph):
         # make a new residue graph and overwrite the old one
         new_meta_graph = make_residue_graph(self.molecule, attrs=('resid', 'resname'))
 
-        # we need to do some bookkeeping for the resids
-        for idx, node in enumerate(new_meta_graph.nodes):
-            new_meta_graph.nodes[node]["resid"] = idx
-            for atom in new_meta_graph.nodes[node]["graph"]:
-                self.molecule.nodes[atom]["resid"] = idx
+        # we need to do some bookkeeping for the resids; residues that
+        # have not been relabelled keep the ids they have
+        if mapping:
+            for idx, node in enumerate(new_meta_graph.nodes):
+                new_meta_graph.nodes[node]["resid"] = idx
+                for atom in new_meta_graph.nodes[node]["graph"]:
+                    self.molecule.nodes[atom]["resid"] = idx
 
         self.clear()
         self.add_nodes_from(new_meta_graph.nodes(data=True))
